@@ -34,6 +34,12 @@ package lsp
 //@      (forall k Int :: 0 <= k && k < st ==> int(res[k]) == d[o+k]) &&
 //@      (forall k Int :: 0 <= k && k < len(text) ==> int(res[st+k]) == int(text[k])) &&
 //@      (forall k Int :: 0 <= k && k < n - en ==> int(res[st+len(text)+k]) == d[o+en+k])
+// text_is(s, d, o, n): the string s consists of the n bytes d[o .. o+n)
+//@ spec text_is(s string, d (Array Int Int), o Int, n Int) bool :=
+//@      len(s) == n && (forall k Int :: 0 <= k && k < n ==> int(s[k]) == d[o+k])
+// same_text(s, b): the string s and the byte slice b hold the same bytes
+//@ spec same_text(s string, b []byte) bool :=
+//@      len(s) == len(b) && (forall k Int :: 0 <= k && k < len(b) ==> int(s[k]) == int(b[k]))
 //@ extern fmt.Errorf
 //@   ensures result != nil
 //@   pure
@@ -47,8 +53,72 @@ package lsp
 //@   requires s != nil
 //@   loop 0 invariant -1 <= rangeindex && rangeindex < len(changes)
 //@   loop 0 invariant rangeindex == 0 ==> splice_ok(content, ro_dat, ro_off, ro_len, ro_start, ro_end, changes[0].Text) && 0 <= ro_start && ro_start <= ro_end && ro_end <= ro_len
+//@   loop 0 invariant rangeindex <= 0 ==> s.fileMap == old(s.fileMap)
+//@   loop 0 invariant rangeindex == -1 ==> same_text(s.fileMap[uri.Path()], content)
+//@   loop 0 invariant rangeindex == 0 ==> text_is(s.fileMap[uri.Path()], ro_dat, ro_off, ro_len)
+//@   loop 0 invariant forall i int :: 0 <= i && i <= rangeindex ==> changes[i].Range != nil
+//@   ensures[ranged] err == nil ==> (forall i int :: 0 <= i && i < len(changes) ==> changes[i].Range != nil)
+//@   ensures[src1] err == nil && len(changes) == 1 ==> text_is(s.fileMap[uri.Path()], ro_dat, ro_off, ro_len)
 //@   ensures[splice1] err == nil && len(changes) == 1 ==> splice_ok(result, ro_dat, ro_off, ro_len, ro_start, ro_end, changes[0].Text) && 0 <= ro_start && ro_start <= ro_end && ro_end <= ro_len
 //@   results result, err
+//@   noframe
+//@   safe
+//@   property C21
+
+// ---- DidChange: what reaches the stored document (fileMap)
+
+//@ extern (*log.Logger).Println
+//@   trusted
+//@ func jsonMarshal
+//@   pure
+//@   trusted
+//@ func (*SyncFile).SaveFile
+//@   trusted
+//@ extern strings.HasSuffix
+//@   pure
+//@   trusted
+//@ extern strconv.Itoa
+//@   pure
+//@   trusted
+
+// changedText: a single full-text change yields that text; a single ranged change yields the stored text
+// with the addressed range replaced; an empty notification is an error.
+//@ func (*LSPServer).changedText
+//@   mode int
+//@   requires s != nil
+//@   results result, err
+//@   ensures[none]    len(changes) == 0 ==> err != nil
+//@   ensures[full]    len(changes) == 1 && changes[0].Range == nil && changes[0].RangeLength == 0 ==> err == nil && same_text(changes[0].Text, result)
+//@   ensures[multi]   err == nil && len(changes) >= 2 ==> (forall i int :: 0 <= i && i < len(changes) ==> changes[i].Range != nil)
+//@   ensures[ranged1] err == nil && len(changes) == 1 && !(changes[0].Range == nil && changes[0].RangeLength == 0) ==> text_is(s.fileMap[uri.Path()], ro_dat, ro_off, ro_len) && splice_ok(result, ro_dat, ro_off, ro_len, ro_start, ro_end, changes[0].Text) && 0 <= ro_start && ro_start <= ro_end && ro_end <= ro_len
+//@   modifies lb_dat, lb_len, once_done, ro_dat, ro_off, ro_len, ro_start, ro_end
+//@   safe
+//@   property C21
+
+// DidChange: a rejected notification leaves every stored document as it was; an accepted one touches only
+// the entry of the notified document, which becomes the full text of a single full change, resp. the stored
+// text with the addressed range replaced for a single ranged change.
+//@ func (*LSPServer).DidChange
+//@   mode int
+//@   requires p != nil && params != nil
+//@   requires[rep] p.fileMap != nil
+//@   ensures[reject]  result != nil ==> forall k string :: has(p.fileMap, k) == old(has(p.fileMap, k)) && p.fileMap[k] == old(p.fileMap[k])
+//@   ensures[others]  forall k string :: k != params.TextDocument.TextDocumentIdentifier.URI.Path() ==> has(p.fileMap, k) == old(has(p.fileMap, k)) && p.fileMap[k] == old(p.fileMap[k])
+//@   ensures[ignored] !strings.HasSuffix(string(params.TextDocument.TextDocumentIdentifier.URI), ".wa") ==> result == nil && (forall k string :: has(p.fileMap, k) == old(has(p.fileMap, k)) && p.fileMap[k] == old(p.fileMap[k]))
+//@   ensures[full]    result == nil && strings.HasSuffix(string(params.TextDocument.TextDocumentIdentifier.URI), ".wa") && len(params.ContentChanges) == 1 && params.ContentChanges[0].Range == nil && params.ContentChanges[0].RangeLength == 0 ==> has(p.fileMap, params.TextDocument.TextDocumentIdentifier.URI.Path()) && len(p.fileMap[params.TextDocument.TextDocumentIdentifier.URI.Path()]) == len(params.ContentChanges[0].Text) && (forall k Int :: 0 <= k && k < len(params.ContentChanges[0].Text) ==> p.fileMap[params.TextDocument.TextDocumentIdentifier.URI.Path()][k] == params.ContentChanges[0].Text[k])
+//@   ensures[ranged1] result == nil && strings.HasSuffix(string(params.TextDocument.TextDocumentIdentifier.URI), ".wa") && len(params.ContentChanges) == 1 && !(params.ContentChanges[0].Range == nil && params.ContentChanges[0].RangeLength == 0) ==> has(p.fileMap, params.TextDocument.TextDocumentIdentifier.URI.Path()) && text_is(old(p.fileMap[params.TextDocument.TextDocumentIdentifier.URI.Path()]), ro_dat, ro_off, ro_len) && 0 <= ro_start && ro_start <= ro_end && ro_end <= ro_len && len(p.fileMap[params.TextDocument.TextDocumentIdentifier.URI.Path()]) == ro_start + len(params.ContentChanges[0].Text) + (ro_len - ro_end) && (forall k Int :: 0 <= k && k < ro_start ==> int(p.fileMap[params.TextDocument.TextDocumentIdentifier.URI.Path()][k]) == ro_dat[ro_off+k]) && (forall k Int :: 0 <= k && k < len(params.ContentChanges[0].Text) ==> p.fileMap[params.TextDocument.TextDocumentIdentifier.URI.Path()][ro_start+k] == params.ContentChanges[0].Text[k]) && (forall k Int :: 0 <= k && k < ro_len - ro_end ==> int(p.fileMap[params.TextDocument.TextDocumentIdentifier.URI.Path()][ro_start+len(params.ContentChanges[0].Text)+k]) == ro_dat[ro_off+ro_end+k])
+//@   modifies lb_dat, lb_len, once_done, ro_dat, ro_off, ro_len, ro_start, ro_end
+//@   noframe
+//@   safe
+//@   property C21
+
+// DidOpen: the opened document's text is stored under its path; no other entry changes.
+//@ func (*LSPServer).DidOpen
+//@   mode int
+//@   requires p != nil && params != nil
+//@   requires[rep] p.fileMap != nil
+//@   ensures[stored] result == nil && has(p.fileMap, params.TextDocument.URI.Path()) && p.fileMap[params.TextDocument.URI.Path()] == params.TextDocument.Text
+//@   ensures[others] forall k string :: k != params.TextDocument.URI.Path() ==> has(p.fileMap, k) == old(has(p.fileMap, k)) && p.fileMap[k] == old(p.fileMap[k])
 //@   noframe
 //@   safe
 //@   property C21
